@@ -81,6 +81,9 @@ func mkValue(k key, vid uint64) core.SignedData {
 	return simdata.Randao(k.duty.Slot/32+variant, sig)
 }
 
+// corruptVid is the id valueID reports for content that was never handed to Store.
+const corruptVid = 1 << 40
+
 // valueID recovers the id of a returned value.
 func valueID(k key, d core.SignedData) uint64 {
 	sig := simdata.SigID(d.Signature())
@@ -89,6 +92,9 @@ func valueID(k key, d core.SignedData) uint64 {
 	case core.SignedRandao:
 		variant = uint64(v.SignedEpoch.Epoch) - k.duty.Slot/32
 	case core.SignedSyncContributionAndProof:
+		if uint64(v.Message.Contribution.Slot) != k.duty.Slot {
+			return corruptVid // content no writer ever stored (see "writer re-uses its buffer")
+		}
 		variant = uint64(v.Message.AggregatorIndex) - 7
 	}
 	return sig<<1 | variant&1
@@ -251,6 +257,17 @@ func body(c *kernel.Ctx) {
 						c.Progress()
 					}
 					verifrt.Note("c%d store -> err=%v", cl, err != nil)
+					// the writer re-uses its buffer once Store has returned: the stored value is what was
+					// handed in at the call, whatever the writer does to its own object afterwards
+					if verifrt.Intn("w", 2) == 1 {
+						for _, v := range set {
+							if sc, ok := v.(core.SignedSyncContributionAndProof); ok {
+								sc.Message.Contribution.Slot += 100000
+								sc.Message.AggregatorIndex += 1000
+								verifrt.Probe("writer-reuses-buffer")
+							}
+						}
+					}
 				}
 			}
 		})
